@@ -70,4 +70,7 @@ theorem fMgOH2_weighted : fMgOH2.Weighted (elementsOf T0) := by
   · exact ⟨16, by simp [elementsOf, atomicWeight, T0], by norm_num⟩
   · exact ⟨1, by simp [elementsOf, atomicWeight, T0], by norm_num⟩
 
+/-- the model run on the witness `Rf` -/
+theorem rf_atoms : parseSimple T0 3 ['R', 'f'] = .ok ([(104, 1)], 0) := by rfl
+
 end XrlParser
